@@ -44,8 +44,10 @@ Definition rpull (r : ring) : pullres :=
   | Some None => if rclosed r then PullClosed else PullWouldBlock
   end.
 
+(* Close: closed = true; every slot cleared; writeIndex = readIndex (the queue is empty again, so that
+   items pushed afterwards are still pulled in order) *)
 Definition rclose (r : ring) : ring :=
-  mkRing (rsize r) (map (fun _ => None) (rbuf r)) (rr r) (rw r) true.
+  mkRing (rsize r) (map (fun _ => None) (rbuf r)) (rr r) (rr r) true.
 
 Definition rreset (r : ring) : ring :=
   mkRing (rsize r) (map (fun _ => None) (rbuf r)) 0 0 false.
